@@ -671,6 +671,25 @@ fn find_identifier_end_x86_64(input: &str, offset: usize) -> usize {
     unsafe { core::mem::transmute::<Fn, RealFn>(fun)(input, offset) }
 }
 
+/// Verification hook: the scalar identifier scan (defines the semantics).
+#[cfg(feature = "verif-hooks")]
+pub fn verif_ident_end_generic(input: &str, offset: usize) -> usize {
+    find_identifier_end_generic(input, offset)
+}
+
+/// Verification hook: the AVX2 identifier scan; `None` when the CPU lacks AVX2.
+#[cfg(feature = "verif-hooks")]
+pub fn verif_ident_end_avx2(input: &str, offset: usize) -> Option<usize> {
+    #[cfg(target_arch = "x86_64")]
+    {
+        if is_x86_feature_detected!("avx2") {
+            // SAFETY: we just checked that the required intrinsics are supported.
+            return Some(unsafe { find_identifier_end_avx2(input, offset) });
+        }
+    }
+    None
+}
+
 fn find_identifier_end(input: &str, offset: usize) -> usize {
     #[cfg(target_arch = "x86_64")]
     {
